@@ -428,6 +428,14 @@ func genC19(r *Rng) *Plan {
 		p.Steps = append(p.Steps, Step{Op: "authreq", Method: "POST", B: "b1", Endpoint: "sign_out", Sub: "good", Str: "https://app1." + RootDomain + "/",
 			Body: r.Pick("https://evil.com/", "https://login.attacker.example/", "//evil.com", "https://app2."+RootDomain+"/other"), Arg2: r.Intn(2)})
 	}
+	if (outcome == "ok" || outcome == "already" || outcome == "400" || outcome == "500" || outcome == "429") && r.Chance(1, 4) {
+		// the confirmation is submitted twice (a double click): the second arrives while the first one's revocation is
+		// still outstanding at the provider; each submission is answered by what the revocation really returned
+		p.Gen += "+double-submit"
+		ru := "https://app1." + RootDomain + "/"
+		p.Steps = append(p.Steps, Step{Op: "authreq", Method: "POST", B: "b1", Endpoint: "sign_out", Sub: "good", Str: ru, Follow: 1,
+			Twin: &Step{Op: "authreq", Method: "POST", B: "b1", Endpoint: "sign_out", Sub: "good", Str: ru, Follow: 1}})
+	}
 	so := Step{Op: "signout", B: "b1", Host: host}
 	switch r.Intn(8) {
 	case 0:
@@ -471,6 +479,9 @@ var oddEmails = []string{"alice@example.com", "Alice@Example.COM", "bob@example.
 // C11: every subset of {addresses, domains, groups}; users attempt login, then request at
 // no-check-due, validation-due and refresh-due instants with the facts unchanged.
 func genC11(r *Rng) *Plan {
+	if r.Chance(1, 10) {
+		return twinUpstreams(r, "c11")
+	}
 	cfg := swarmConfig(r)
 	cfg.AuthDomains, cfg.AuthAddresses = []string{"*"}, nil
 	cfg.DefaultDomains, cfg.DefaultAddresses, cfg.DefaultGroups = nil, nil, nil
